@@ -34,8 +34,40 @@ def make_grammars(rng, n, p_err, conflict_bias=0.0):
                 if q[0] not in order:
                     order.append(q[0])
             syn.sort(key=lambda p: order.index(p[0]))
+        if rng.random() < 0.07:
+            syn = hostile_names(rng, syn)
         gs.append({"lex": lex, "syn": syn, "err": any(b[0][1] == "error" for _, b, _, _ in syn)})
     return gs
+
+
+def hostile_names(rng, syn):
+    """spellings gocc uses for its own pseudo symbols, written where the grammar language allows any name:
+    a string literal "INVALID" / "␚" (the literals "empty" / "error" are known finding D16 and have their own corpus case), a string literal spelled like a production (declared
+    before or after the use), a production called INVALID, `empty` next to other symbols"""
+    syn = [(h, list(b), a, i) for h, b, a, i in syn]
+    heads = []
+    for h, _, _, _ in syn:
+        if h not in heads:
+            heads.append(h)
+    k = rng.choice(["lit_reserved", "lit_reserved", "lit_prod", "prod_invalid", "empty_mixed"])
+    cands = [i for i, (_, b, _, _) in enumerate(syn) if b[0][1] not in ("empty", "error")]
+    if not cands:
+        return syn
+    i = rng.choice(cands)
+    h, b, a, aid = syn[i]
+    if k == "lit_reserved":
+        b.insert(rng.randint(0, len(b)), (2, rng.choice(["INVALID", "␚"])))
+    elif k == "lit_prod":
+        b.insert(rng.randint(0, len(b)), (2, rng.choice(heads)))
+    elif k == "empty_mixed":
+        b.insert(rng.randint(0, len(b)), (1, "empty"))
+    else:
+        victim = rng.choice(heads[1:]) if len(heads) > 1 else heads[0]
+        syn = [("INVALID" if h2 == victim else h2, [(kd, "INVALID") if (kd == 0 and n == victim) else (kd, n) for kd, n in b2], a2, i2)
+               for h2, b2, a2, i2 in syn]
+        return syn
+    syn[i] = (h, b, 0 if a in (2, 3, 4, 7) else a, aid if a not in (2, 3, 4, 7) else 0)
+    return syn
 
 
 def strip_error(g):
@@ -289,22 +321,28 @@ def gen_inputs(rng, g, types, n_random, max_enum=130):
 CHUNK = int(__import__('os').environ.get('VERIF_CHUNK', '250'))     # grammars per compiled driver: keeps one `go build` and one driver process small
 
 
-def run_family(ck, n_grammars, n_random, p_err=0.3, want_hist=True, conflict_bias=0.0, zip_frac=0.25):
-    """runs the family in chunks of CHUNK grammars (one scratch module and one compiled driver per chunk)"""
+def run_family(ck, n_grammars, n_random, p_err=0.3, want_hist=True, conflict_bias=0.0, zip_frac=0.25, extra=None):
+    """runs the family in chunks of CHUNK grammars (one scratch module and one compiled driver per chunk);
+    `extra`: fixed grammars (corpus) that run first"""
     out, done = [], 0
     while done < n_grammars:
         n = min(CHUNK, n_grammars - done)
-        part = _run_family(ck, n, n_random, p_err, want_hist, conflict_bias, zip_frac)
+        part = _run_family(ck, n, n_random, p_err, want_hist, conflict_bias, zip_frac, extra if done == 0 else None)
+        off = len(out)
         for r in part:
-            r["gi"] += done
+            r["gi"] += off
         out += part
         done += n
     return out
 
 
-def _run_family(ck, n_grammars, n_random, p_err=0.3, want_hist=True, conflict_bias=0.0, zip_frac=0.25):
+# known finding D16: a string literal spelled `empty` (or `error`) is taken for the keyword
+D16_GRAMMAR = {"lex": [], "syn": [("S0", [(2, "empty"), (1, "a")], 0, 0), ("S0", [(1, "b")], 0, 0)], "err": False, "d16": True}
+
+
+def _run_family(ck, n_grammars, n_random, p_err=0.3, want_hist=True, conflict_bias=0.0, zip_frac=0.25, extra=None):
     rng = ck.rng
-    gs = make_grammars(rng, n_grammars, p_err, conflict_bias)
+    gs = [dict(g) for g in (extra or [])] + make_grammars(rng, n_grammars, p_err, conflict_bias)
     b = batch.Batch("parse")
     out = []
     try:
